@@ -665,6 +665,10 @@ func (fc *FnCtx) bvToInt(t string, ty types.Type) string {
 	w := intWidth(ty)
 	if isUnsigned(ty) {
 		fn := fmt.Sprintf("ubv2int%d", w)
+		if fc.cs == nil || !fc.cs.IndexElt {
+			fc.declareOnce(fn, fmt.Sprintf("(define-fun %s ((x (_ BitVec %d))) Int (bv2nat x))", fn, w))
+			return app(fn, t)
+		}
 		if !fc.declared[fn] {
 			// an uninterpreted function with its definition as a (lazily instantiated) axiom: as a define-fun
 			// every occurrence exposes bv2nat to the solvers' rewriters, and bv2nat(int2bv(n)) goals that a
